@@ -109,7 +109,7 @@ package iobroker
 //@   ensures once: n == 1
 
 //@ func Broker.Do#2() (err)
-//@   props C04
+//@   props C04 C01
 //@   ghost me int
 //@   ghost set bool = false
 //@   ghost nWait int = 0
